@@ -51,7 +51,15 @@ pub struct Case {
     /// the prepared request is sent a second time (nothing may carry over from the first exchange)
     #[serde(default)]
     pub send_twice: bool,
+    /// index into METHODS
+    #[serde(default)]
+    pub method: u8,
+    /// the URL's own host is put on the no-proxy list: the request (not the redirect hop) goes direct whatever proxies exist
+    #[serde(default)]
+    pub no_proxy_self: bool,
 }
+
+pub const METHODS: &[&str] = &["GET", "GET", "OPTIONS", "HEAD", "POST", "DELETE", "TRACE", "PUT"];
 
 pub struct C08;
 
@@ -347,7 +355,7 @@ non-trivial = a proxy is involved or the URL has >= 2 of {explicit port, IPv6, f
                                                         0 => None,
                                                         k => Some(ProxySpec { https: *k == 2, host: ph.clone(), port: *pp, creds: pc.clone() }),
                                                     };
-                                                    all.push(Case { url, http_proxy: proxy.clone(), https_proxy: proxy, redirect_to: None, caller_host: false, send_twice: false });
+                                                    all.push(Case { url, http_proxy: proxy.clone(), https_proxy: proxy, redirect_to: None, caller_host: false, send_twice: false, method: (all.len() % METHODS.len()) as u8, no_proxy_self: false });
                                                 }
                                             }
                                         }
@@ -369,9 +377,9 @@ non-trivial = a proxy is involved or the URL has >= 2 of {explicit port, IPv6, f
             prop_oneof![1 => Just(None), 2 => proxy_spec().prop_map(Some)],
             prop_oneof![3 => Just(None), 1 => urlgen::url_spec(true, false).prop_map(Some)],
             prop::bool::weighted(0.2),
-            prop::bool::weighted(0.25),
+            (prop::bool::weighted(0.25), 0u8..METHODS.len() as u8, prop::bool::weighted(0.15)),
         )
-            .prop_map(|(mut url, http_proxy, https_proxy, redirect_to, caller_host, send_twice)| {
+            .prop_map(|(mut url, http_proxy, https_proxy, redirect_to, caller_host, (send_twice, method, no_proxy_self))| {
                 let redirect_to = redirect_to.map(|mut u| {
                     u.fragment = None;
                     if u.https && https_proxy.is_some() {
@@ -385,7 +393,7 @@ non-trivial = a proxy is involved or the URL has >= 2 of {explicit port, IPv6, f
                 let v6_tunnel = url.https && https_proxy.is_some() && matches!(url.host, HostSpec::V6(_));
                 let (redirect_to, send_twice) = if v6_tunnel { (None, false) } else { (redirect_to, send_twice) };
                 let _ = &mut url;
-                Case { url, http_proxy, https_proxy, redirect_to, caller_host, send_twice }
+                Case { url, http_proxy, https_proxy, redirect_to, caller_host, send_twice, method, no_proxy_self }
             })
             .boxed()
     }
@@ -407,8 +415,14 @@ non-trivial = a proxy is involved or the URL has >= 2 of {explicit port, IPv6, f
         if let Some(p) = &case.https_proxy {
             b = b.https_proxy(url::Url::parse(&p.render()).expect("proxy url"));
         }
+        if case.no_proxy_self {
+            // the entry is the host as the URL spells it (IPv6 literals bracketed), lower-cased
+            b = b.add_no_proxy_host(case.url.host_text());
+            ctx.label("own-host-on-no-proxy-list");
+        }
         let url = case.url.render();
-        let mut rb = attohttpc::get(&url).proxy_settings(b.build()).danger_accept_invalid_certs(true);
+        let method = METHODS[case.method as usize % METHODS.len()];
+        let mut rb = attohttpc::RequestBuilder::new(http::Method::from_bytes(method.as_bytes()).unwrap(), &url).proxy_settings(b.build()).danger_accept_invalid_certs(true);
         if case.caller_host {
             rb = rb.header("Host", "elsewhere.invalid:81");
         }
@@ -421,7 +435,7 @@ non-trivial = a proxy is involved or the URL has >= 2 of {explicit port, IPv6, f
             drop(res);
             res = prepared.send();
         }
-        let proxy = select(&case.url, &case.http_proxy, &case.https_proxy);
+        let proxy = if case.no_proxy_self { None } else { select(&case.url, &case.http_proxy, &case.https_proxy) };
         let exs = exchanges(&net);
         let route = match (case.url.https, proxy.is_some()) {
             (false, false) => "route:direct-http",
@@ -463,8 +477,13 @@ non-trivial = a proxy is involved or the URL has >= 2 of {explicit port, IPv6, f
         if exs.len() != hops {
             return Outcome::fail("C08:dials", format!("{} connections, expected {hops}", exs.len()));
         }
-        if let Err((sig, d)) = check_exchange("C08", &exs[0], &case.url, &[], proxy) {
-            return Outcome::fail(sig, d);
+        match check_exchange("C08", &exs[0], &case.url, &[], proxy) {
+            Err((sig, d)) => return Outcome::fail(sig, d),
+            Ok(req) => {
+                if req.method != method {
+                    return Outcome::fail("C08:method", format!("request line says {}, the request was built with {method}", req.method));
+                }
+            }
         }
         if case.send_twice {
             // the second send starts again at the request's own URL
@@ -475,7 +494,7 @@ non-trivial = a proxy is involved or the URL has >= 2 of {explicit port, IPv6, f
         }
         ctx.label_if(case.caller_host, "caller-supplied-host");
         if let Some(u2) = &case.redirect_to {
-            let p2 = select(u2, &case.http_proxy, &case.https_proxy);
+            let p2 = if case.no_proxy_self && crate::props::c10::bypass(&u2.host_text(), &[case.url.host_text()]) { None } else { select(u2, &case.http_proxy, &case.https_proxy) };
             ctx.label("redirect-hop");
             ctx.label_if(p2.map(|p| p.render()) != proxy.map(|p| p.render()), "redirect-changes-proxy");
             if let Err((sig, d)) = check_exchange("C08", &exs[1], u2, &[], p2) {
